@@ -150,6 +150,10 @@ class URLInfo(object):
             remaining = '{}:{}'.format(scheme, remaining)
             scheme = default_scheme
 
+        if 'a'.encode(encoding) != b'a':
+            # UTF-16/UTF-32 documents: percent-encode as UTF-8 (WHATWG URL)
+            encoding = 'utf-8'
+
         info = URLInfo()
         info.encoding = encoding
 
